@@ -27,6 +27,11 @@ def nap_loop():
         time.sleep(0.01)
 
 
+def nap_slices(seconds):
+    while True:
+        time.sleep(seconds)
+
+
 def long_nap(seconds):
     time.sleep(seconds)
     return mark("after nap")
@@ -267,6 +272,27 @@ def _check_c32(part: Part, tier, seed):
                                {"abandoned": lsrc, "wait_before_next_s": wait, "next": tsrc, "result_when_returned": repr(sig)[:400],
                                 "same_result_object_after_the_abandoned_thread_ended": repr(settled)[:400]},
                                target=f"{TR}:ExecutionTracer")
+        # two non-terminating test cases in a row: the first one sleeps in slices longer than bound + grace, so its abandoned thread
+        # wakes up (and is stopped by the tracer) while the second one runs; the second one never terminates either and must be
+        # reported as a timeout with an empty result whatever the first one's thread does to the tracer in the meantime
+        naps = [0.55, 0.65, 0.8] if tier == "quick" else [0.52, 0.55, 0.6, 0.65, 0.7, 0.8, 0.95]
+        for nap, second in itertools.product(naps, ["spin()", "nap_loop()"]):
+            part.case()
+            first = f"nap_slices({nap})"
+            ra, _el, _w = timed_execute(first)
+            rb2, el2, _w2 = timed_execute(second)
+            if not ra.timeout or not rb2.timeout:
+                part.violation("a test case that does not terminate within the bound is reported as a timeout",
+                               f"no-timeout-after-abandoned:{second}",
+                               {"first": first, "first_reported_timeout": ra.timeout, "second": second, "second_reported_timeout": rb2.timeout,
+                                "second_elapsed_s": round(el2, 2)}, target=f"{EX}:TestCaseExecutor.execute")
+            elif rb2.exceptions or rb2.execution_trace.covered_line_ids or rb2.execution_trace.executed_predicates:
+                part.violation("a timed-out execution reports a fresh, empty result", f"timeout-result-after-abandoned:{second}",
+                               {"first": first, "second": second, "result": repr(_sig(rb2, sp))[:300]}, target=f"{EX}:TestCaseExecutor.execute")
+            deadline = time.monotonic() + 3
+            for th in threading.enumerate():
+                if th is not threading.current_thread() and th.daemon:
+                    th.join(timeout=max(0.0, deadline - time.monotonic()))
     finally:
         hook.__exit__(None, None, None)
         sys.modules.pop(_MODULE, None)
@@ -283,7 +309,8 @@ def bounded_c32(tier, seed):
                    "exception) x waits {0, 0.1, 1.1} s (thorough: 6 waits) before the next test case x 2 terminating test cases; "
                    "the timeout must be reported within 2 x timeout + 1 s with an empty result, and the terminating test case's "
                    "result (exceptions, lines, predicates with distances, code objects) must equal its result on a quiet executor",
-             bound="30 (60) scenarios; schedules are whatever the OS produces for these waits (not enumerated)")
+             bound="30 (60) scenarios, plus 6 (14) scenarios of two non-terminating test cases in a row (the first sleeping in slices "
+                   "of 0.52-0.95 s, so that its abandoned thread wakes up during the second one); schedules are whatever the OS produces for these waits (not enumerated)")
     return guarded(p, _check_c32, tier, seed)
 
 
